@@ -317,6 +317,30 @@ func checkText(c Case, st *core.Stats) error {
 		if appendErr != nil {
 			return appendErr
 		}
+		// what Append(nil, ...) returns belongs to the caller: formatting other values afterwards
+		// must not change it (no buffer shared between calls)
+		core.Guard(st, func() {
+			others := []*apd.Decimal{apd.NewWithBigInt(new(apd.BigInt).Exp(apd.NewBigInt(7), apd.NewBigInt(45), nil), 0), apd.New(987654321987654321, 0), apd.New(-5, -3)}
+			for _, f := range []byte{'f', 'G', 'e'} {
+				if f == 'f' && (c.X.Exp <= -3000 || c.X.Exp >= 3000) {
+					continue
+				}
+				first := x.Append(nil, f)
+				keep := string(first)
+				for _, o := range others {
+					_ = o.Append(nil, 'f')
+					_ = o.Append(nil, f)
+					_ = o.String()
+				}
+				if string(first) != keep {
+					appendErr = fmt.Errorf("the slice returned by Append(nil, %q) of %v read %q, and %q after other values were formatted: a buffer shared between calls", f, c.X, trunc(keep), trunc(string(first)))
+					return
+				}
+			}
+		})
+		if appendErr != nil {
+			return appendErr
+		}
 	}
 	for i, e := range encs {
 		p := parsers[i%len(parsers)]
